@@ -151,6 +151,39 @@ def run_case(inp):
                 V("cache-race", f"instruction-level schedule {schedule[:30]} with {n} threads: results {res}, cache size {len(c._dict)}")
                 break
         return viols
+    if kind == "backend-context":
+        # `with using_backend(name)` must govern every task of the computation, also the ones that look the
+        # backend up lazily inside worker threads (the process-wide default is set to a backend that cannot
+        # be used here, so any task that misses the context fails loudly instead of silently differing)
+        from acryo.backend import set_backend, using_backend
+        from acryo.backend._api import Backend as _B
+        tomo = r.normal(size=(22, 22, 22)).astype(np.float32)
+        mole = Molecules(r.uniform(8, 13, size=(6, 3)).astype(np.float32))
+        tmpl = r.normal(size=(5, 5, 5)).astype(np.float32)
+        old_default = _B._default
+
+        def run(cfg):
+            with dask.config.set(**cfg):
+                ld = SubtomogramLoader(tomo, mole, order=1, output_shape=(5, 5, 5))
+                return (np.asarray(ld.score([tmpl])[0]), np.asarray(ld.construct_landscape(tmpl, max_shifts=1.0).compute()),
+                        ld.align(tmpl, max_shifts=1.0).molecules.pos.copy(), np.asarray(ld.average()))
+        try:
+            ref = run(dict(scheduler="synchronous"))
+            set_backend("cupy")                      # not installed: a task that ignores the context raises
+            with using_backend("numpy"):
+                for cfg in (dict(scheduler="synchronous"), dict(scheduler="threads", num_workers=1),
+                            dict(scheduler="threads", num_workers=4)):
+                    try:
+                        got = run(cfg)
+                    except Exception as e:  # noqa: BLE001
+                        V("spurious-error", f"inside `with using_backend('numpy')` (process default 'cupy'), {cfg}: "
+                                            f"{type(e).__name__}: {str(e)[:100]}")
+                        continue
+                    if any(not np.array_equal(a, b) for a, b in zip(ref, got)):
+                        V("schedule-dependence", f"results inside using_backend('numpy') differ from the plain numpy run under {cfg}")
+        finally:
+            set_backend(old_default)
+        return viols
     if kind == "declared-shape":
         from acryo.alignment import PCCAlignment, NCCAlignment
         from acryo.alignment._concrete import FSCAlignment
@@ -332,7 +365,12 @@ def run_case(inp):
         sys.setswitchinterval(1e-6)
         variants = []
         for chunks in inp["chunkings"]:
-            img = da.from_array(tomo, chunks=tuple(chunks)) if chunks else tomo
+            if chunks == "cropped":
+                # what a lazily cropped tomogram looks like: a short first chunk, then regular ones
+                padded = np.pad(tomo, ((7, 0), (5, 0), (3, 0)))
+                img = da.from_array(padded, chunks=10)[7:, 5:, 3:]
+            else:
+                img = da.from_array(tomo, chunks=tuple(chunks)) if chunks else tomo
             for sch, w in inp["schedulers"]:
                 variants.append((f"chunks={chunks} scheduler={sch}/{w}", img, sch, w))
         for label, img, sch, w in variants:
@@ -356,7 +394,7 @@ def oracle(rng, thorough, deep=False, hints=None):
     for it in range(5 if big else 2):
         cases.append(dict(kind="loader", seed=int(rng.integers(0, 10 ** 6)), nmol=int(rng.integers(3, 9)),
                           order=int(rng.choice([0, 1])),
-                          chunkings=[None, [13, 13, 12], [26, 9, 24]] if big else [None, [13, 13, 12]],
+                          chunkings=[None, [13, 13, 12], [26, 9, 24], "cropped"] if big else [None, [13, 13, 12], "cropped"],
                           schedulers=[["threads", 1], ["threads", 4], ["threads", 16]] if big else [["threads", 4], ["threads", 16]]))
     mss = [1.4, [1.0, 2.6, 2.0], 5.0, 0.6, 2.0]
     combos = [(m, j) for m in ("ZNCC", "PCC", "FSC", "NCC") for j in range(len(mss))]
@@ -369,6 +407,7 @@ def oracle(rng, thorough, deep=False, hints=None):
         cases.append(dict(kind="model-interleave", seed=int(rng.integers(0, 10 ** 6)), threads=[2, 3][i % 2],
                           model=["ZNCC", "PCC"][i % 2], method=["align", "score", "landscape"][i % 3],
                           trials=40 if deep else 4, steps=3000))
+    cases.append(dict(kind="backend-context", seed=int(rng.integers(0, 10 ** 6))))
     cases.append(dict(kind="wedge-race", seed=int(rng.integers(0, 10 ** 6)), nmol=64 if big else 32,
                       workers=[8, 16] if big else [8], reps=6 if deep else (2 if thorough else 1)))
     viols, stats = [], {"cases": len(cases), "samples": [{"oracle_case": c} for c in cases[:2]]}
